@@ -9,6 +9,10 @@
 #include <Bpp/Numeric/Parameter.h>
 #include <map>
 #include <algorithm>
+#include <unistd.h>
+#include <sys/wait.h>
+#include <sys/select.h>
+#include <signal.h>
 using namespace bpp; using namespace verif;
 
 static std::string showMap(const std::map<std::string, std::string>& m) {
@@ -16,6 +20,40 @@ static std::string showMap(const std::map<std::string, std::string>& m) {
   std::string s = std::to_string(m.size());
   for (const auto& kv : m) s += " " + strToHex(kv.first) + " " + strToHex(kv.second);
   return s;
+}
+
+// resolveVariables has an unbounded loop: run it in a child process under a watchdog and report
+// `hang` when it does not answer in time (or dies, e.g. by exhausting memory)
+static std::string varsGuarded(std::map<std::string, std::string> m) {
+  int fd[2]; if (pipe(fd) != 0) return "exc:std";
+  std::cout.flush();
+  pid_t pid = fork();
+  if (pid == 0) {
+    close(fd[0]);
+    std::string out;
+    try { AttributesTools::resolveVariables(m); out = showMap(m); }
+    catch (Exception&) { out = "exc:bpp"; }
+    catch (std::exception&) { out = "exc:std"; }
+    size_t off = 0; while (off < out.size()) { ssize_t w = write(fd[1], out.data() + off, out.size() - off); if (w <= 0) break; off += (size_t)w; }
+    close(fd[1]); _exit(0);
+  }
+  close(fd[1]);
+  std::string out; bool timedOut = false;
+  const char* e = getenv("VERIF_VARS_TIMEOUT_MS"); long budget = e ? atol(e) : 1500;
+  for (;;) {
+    fd_set rs; FD_ZERO(&rs); FD_SET(fd[0], &rs);
+    struct timeval tv; tv.tv_sec = budget / 1000; tv.tv_usec = (budget % 1000) * 1000;
+    int r = select(fd[0] + 1, &rs, nullptr, nullptr, &tv);
+    if (r <= 0) { timedOut = true; break; }
+    char buf[4096]; ssize_t n = read(fd[0], buf, sizeof buf);
+    if (n <= 0) break;
+    out.append(buf, (size_t)n);
+  }
+  close(fd[0]);
+  if (timedOut) kill(pid, SIGKILL);
+  int st = 0; waitpid(pid, &st, 0);
+  if (timedOut || out.empty()) return "hang";
+  return out;
 }
 
 static std::string op(const Toks& t) {
@@ -90,8 +128,7 @@ static std::string op(const Toks& t) {
     if (o == "vars") {           // vars <n> k1 v1 ...
       std::map<std::string, std::string> m; size_t n = toU(t[1]);
       for (size_t i = 0; i < n; ++i) m[hexToStr(t[2 + 2 * i])] = hexToStr(t[3 + 2 * i]);
-      AttributesTools::resolveVariables(m);
-      return showMap(m);
+      return varsGuarded(m);
     }
   } catch (Exception& e) { return "exc:bpp"; }
   return "bad-op";
